@@ -7,11 +7,12 @@
    and as executed models with a validated tape of column norms); (4) round 5: error_calc on data with its own branch selection, EVERY
    entry of the returned lists, loop x algebra for HOOI / tensor ring / PARAFAC2 / non-negative Tucker; (5) non-vacuity Examples;
    (6) round 7: the parafac loop ON DATA with weights, normalisation and line search; constrained_parafac and HALS iterations on data;
-   the semantic checker of tensor_ring_als's axis bookkeeping. *)
+   the semantic checker of tensor_ring_als's axis bookkeeping; (7) round 8: the sub-chain tensor of tensor_ring_als built ON DATA by successive
+   tensordot calls is the index-level chain product (first universal step of "data-level pipeline = index-level residual"). *)
 From Coq Require Import List Arith ZArith Reals Bool Ring Lia Lra.
 From TLV Require Import Base.Shape Base.PyList Base.Tensor Base.BigSum Base.Ops Model.Errors Model.ErrorsR
      Proofs.ErrorsProofs Proofs.ErrorsSkeleton Proofs.ErrorsSkeletonCP Proofs.ErrorsP2 Proofs.ErrorsTR Proofs.ErrorsReal Proofs.ErrorsLoops Proofs.ErrorsNormalizeR
-     Proofs.ErrorsDataLoop Proofs.ErrorsDataLoopR.
+     Proofs.ErrorsDataLoop Proofs.ErrorsDataLoopR Proofs.ErrorsTRData.
 Import ListNotations.
 
 (* squared-error expansion over an arbitrary index space:  sum (X - Y)^2 = sum X^2 + sum Y^2 - 2 sum X Y *)
@@ -925,3 +926,40 @@ Example C06_cp_normalize_negative_weight :
   w_of [2%nat; 1%nat] (absorb_weights [2%nat; 1%nat] st) 0%nat = 1%R /\
   absorb_weights [2%nat; 1%nat] st 0%nat 0%nat 0%nat = (-6)%R /\ absorb_weights [2%nat; 1%nat] st 0%nat 1%nat 0%nat = (-8)%R.
 Proof. exact cp_normalize_negative_weight. Qed.
+
+(* round 8 -- tensor_ring_als ON DATA, first universal step towards "tr_residual2_data = ls_residual2" (which the correspondence checks per
+   instance, kind KTRData): the design matrix of Model/Errors.v:tr_design_data is the transposed, reshaped SUB-CHAIN tensor, and that tensor
+   - built as in _tr_als.py by  subchain = tr_decomp[(dim+1) % N]; for j in 2..N-1: subchain = tensordot(subchain, tr_decomp[(dim+j) % N], axes=1)
+   - has shape (r_0, n_1 .. n_{N-1}, r_end) and, at every in-bounds index (a, j_1 .. j_{N-1}, b), the entry
+   chain (slices_at cores [j_1 .. j_{N-1}]) a b, the matrix-chain product the trace-cyclicity theorems (C06_tr_als_residual_is_ring_error) are
+   about: for EVERY commutative ring, every number of cores N >= 2, every mode dim and all mode / bond dimensions whose consecutive bonds
+   match (`bonds`).  NOT covered here: the transposition by tr_idx, the two reshapes and the matmul (checked per instance by KTRData). *)
+Theorem C06_tr_subchain_on_data_is_chain_product : forall (F : Type) (Op : fops F),
+  ring_theory (f0 Op) (f1 Op) (fadd Op) (fmul Op) (fsub Op) (fopp Op) (@eq F) ->
+  forall (cores : list (tensor F)) (dim r0 rend : nat) (ms : list nat),
+  2 <= length cores ->
+  bonds r0 (tr_chain_cores cores dim) ms rend ->
+  tr_design_data Op cores dim =
+    (let subT := transpose (f0 Op) (tr_idx (length cores) dim) (tr_subchain_data Op cores dim) in
+     let cols := nth 0 (shape (nth dim cores (mk [] []))) 0 * nth 2 (shape (nth dim cores (mk [] []))) 0 in
+     reshape [prod (shape subT) / cols; cols] subT) /\
+  shape (tr_subchain_data Op cores dim) = r0 :: ms ++ [rend] /\
+  forall a js b, inb (r0 :: ms ++ [rend]) (a :: js ++ [b]) ->
+    get (f0 Op) (tr_subchain_data Op cores dim) (a :: js ++ [b]) = chain Op (slices_at (cores_of Op (tr_chain_cores cores dim)) js) a b.
+Proof.
+  intros F Op Rth cores dim r0 rend ms HN Hb. split; [apply tr_design_data_uses_subchain |].
+  exact (tr_subchain_data_is_chain Op Rth cores dim r0 rend ms HN Hb).
+Qed.
+Print Assumptions C06_tr_subchain_on_data_is_chain_product.
+(* non-vacuity: three integer cores of shapes (2,3,2), (2,2,2), (2,4,2), mode 0: the hypotheses hold and an in-bounds index exists; the entry
+   computed on data and the chain product agree on it (both sides evaluated) *)
+Example C06_tr_subchain_nonvacuous :
+  let cores := [tabulate [2; 3; 2] (fun idx => Z.of_nat (1 + ravel [2; 3; 2] idx)); tabulate [2; 2; 2] (fun idx => Z.sub (Z.of_nat (ravel [2; 2; 2] idx)) 3%Z);
+                tabulate [2; 4; 2] (fun idx => Z.of_nat (2 * ravel [2; 4; 2] idx))] in
+  2 <= length cores /\ bonds 2 (tr_chain_cores cores 0) [2; 4] 2 /\ inb (2 :: [2; 4] ++ [2]) (1 :: [1; 3] ++ [0]) /\
+  get (f0 Zops) (tr_subchain_data Zops cores 0) (1 :: [1; 3] ++ [0]) = chain Zops (slices_at (cores_of Zops (tr_chain_cores cores 0)) [1; 3]) 1 0 /\
+  get (f0 Zops) (tr_subchain_data Zops cores 0) (1 :: [1; 3] ++ [0]) <> 0%Z.
+Proof.
+  cbv zeta. split; [cbn; lia |]. split; [cbn; eexists; split; [reflexivity |]; eexists; split; [reflexivity |]; reflexivity |].
+  split; [cbn; lia |]. split; [vm_compute; reflexivity | vm_compute; discriminate].
+Qed.
